@@ -9,6 +9,7 @@
 #include <unistd.h>
 #include <fcntl.h>
 #include <errno.h>
+#include <time.h>
 
 vh_args_t vh_args;
 volatile uint64_t vh_sub;
@@ -303,7 +304,7 @@ int vh_main(int argc, char ** argv, const char * property, const vh_phase_t * ph
 #endif
 
     for (p = 0; p < nphases; p++) {
-        uint64_t n = phases[p].count(vh_args.thorough), idx, k = 0;
+        uint64_t n = phases[p].count(vh_args.thorough), idx, k = 0; time_t last_arm = 0;
         if (vh_args.replay && p != vh_args.replay_phase) continue;
         if (vh_args.resume_phase >= 0 && p < vh_args.resume_phase) continue;
         cur_phase = p;
@@ -312,7 +313,8 @@ int vh_main(int argc, char ** argv, const char * property, const vh_phase_t * ph
             if (vh_args.replay) { if (vh_args.replay_idx >= n) break; idx = vh_args.replay_idx; }
             else if (vh_args.resume_phase == p && idx < vh_args.resume_idx) continue;
             cur_idx = idx; vh_sub = 0; case_desc[0] = 0;
-            if ((k++ & 255) == 0) alarm(60);
+            /* watchdog: "no case makes progress for ~2 minutes"; re-armed at most once per second (coarse vDSO clock, no syscall per case) */
+            { struct timespec now; clock_gettime(CLOCK_MONOTONIC_COARSE, &now); if (k++ == 0 || now.tv_sec != last_arm) { alarm(120); last_arm = now.tv_sec; } }
             vh_rng_seed(&rng, vh_args.seed, (uint64_t) p, idx);
             phases[p].run(idx, &rng);
             if (vh_args.replay) break;
